@@ -337,9 +337,8 @@ def parseTcpOp (s : String) : Option TcpOp :=
   | ["srst"] => some .serverReset
   | _ => none
 
-def onWire : TcpOp → Bool
-  | .clientRawSegment .. | .serverRawSegment .. | .clientHdr _ | .serverHdr _ => false
-  | _ => true
+/-- the campaign puts raw segments and header-only results on the wire too (wrapped in ipv4::datagram) -/
+def onWire : TcpOp → Bool := fun _ => true
 
 def wireExpected (c0 s0 : Nat) (pre : List TcpOp) : List TcpOp → List TcpStream.Segment
   | [] => []
